@@ -40,6 +40,10 @@ def scenario(rnd, cid, kind):
         send(rnd.choice([20, 300]), pace=pace)
         ops.append("down")
         send(rnd.choice([5, 200, 600]))
+        if rnd.random() < 0.6:
+            # a few long lines (many tags): 3-9 KB each, spooled like the others
+            send(rnd.choice([1, 3]), size=rnd.choice([3000, 4100, 5000, 9000]))
+            send(rnd.choice([5, 40]))
         ops.append("sleep %d" % rnd.choice([10, 100]))
         ops.append("up healthy")
         if rnd.random() < 0.5:
